@@ -27,7 +27,7 @@ FUNCTIONS = ["Input.__enter__", "Input.__exit__", "Input.send", "Input._send", "
 BOUNDS = ("contexts: Input (sigint_event x disable_terminal_start_stop), Input nested in Input, FullscreenWindow and "
           "CursorAwareWindow (hide_cursor x keep_last_line) alone and inside an Input, Cbreak (+ its Termmode), Nonblocking, "
           "Termmode; initial state: 3 tty attribute vectors x 3 status-flag words (O_NONBLOCK set included) x 4 SIGINT "
-          "dispositions x 2 wake-up fds; body: up to 2 operations out of {request with nothing pending, request with a key "
+          "dispositions x 2 wake-up fds, Input contexts also in a non-main thread (signal functions raise there, as in CPython); body: up to 2 operations out of {request with nothing pending, request with a key "
           "pending, event trigger, thread-safe trigger, SIGINT during a blocked request, render}; crash point: none or any "
           "model call of the body, raising an ordinary exception or KeyboardInterrupt; the whole scenario repeated 3 times "
           "for the fd-leak check. quick samples the initial-state product by VERIF_SEED; thorough takes all of it.")
@@ -89,6 +89,10 @@ def _scenarios(kind, tier, seed, only_body=None):
             ii = inits
             if tier == "quick":
                 ii = rnd.sample(inits, 6) + [(0, 0, 1, 1), (0, 2, 0, 0)]
+            if kind in ("input", "input_reused", "input_in_input", "fullscreen_in_input"):
+                # the same context entered and left in a thread that is not the main thread (5th component)
+                nm = [i + (True,) for i in (ii if tier != "quick" else rnd.sample(inits, 2) + [(0, 0, 0, 0), (2, 1, 3, 1)])]
+                ii = list(ii) + nm
             for init in ii:
                 # crash points: every model call the body makes in this configuration (counted by a run without crash)
                 LAST["calls"] = 0
@@ -136,8 +140,9 @@ def run_scenario(kind, body, opts, init, crash, repeat=1):
     import curtsies.input as ci
     import curtsies.termhelpers as th
     import curtsies.window as cw
-    ai, fi, si, wi = init
+    ai, fi, si, wi = init[:4]
     m = OS(tty_fd=0, attrs=ATTRS[ai], flags=FLAGS[fi], sigint=SIGINTS[si], wakeup=WAKEUPS[wi])
+    m.main_thread = not (len(init) > 4 and init[4])
     osmodel.install(m)
     cw.Cbreak = th.Cbreak
     try:
@@ -241,7 +246,7 @@ def run_scenario(kind, body, opts, init, crash, repeat=1):
                         with mk_input() as inp:
                             do_body(inp, None)
                         # the outer context is still active: its own wake-up fd must be installed again
-                        if m.wakeup != outer.wakeup_write_fd:
+                        if m.main_thread and m.wakeup != outer.wakeup_write_fd:
                             problems.append("after leaving the inner Input the outer Input's wake-up fd is not installed (is %r)" % (m.wakeup,))
                 elif kind in ("fullscreen", "cursoraware"):
                     with mk_win(kind) as win:
@@ -352,7 +357,7 @@ REAL_OPS = ("send0", "send_key", "trigger", "ts_trigger")
 def real_replay(kind, body, opts, init):
     """the same scenario against the real OS on a pty (no crash point, no action inside a blocked select).
     returns a description of what is not restored, None if everything is, or 'n/a' when not expressible"""
-    if kind not in REAL_KINDS or any(op not in REAL_OPS for op in body):
+    if kind not in REAL_KINDS or any(op not in REAL_OPS for op in body) or (len(init) > 4 and init[4]):
         return "n/a"
     import fcntl
     import signal
@@ -360,7 +365,7 @@ def real_replay(kind, body, opts, init):
     import curtsies.input as ci
     import curtsies.termhelpers as th
     from curtsies import events
-    ai, fi, si, wi = init
+    ai, fi, si, wi = init[:4]
     master, slave = real_os.openpty()
     stream = real_os.fdopen(slave, "rb+", buffering=0)
     old_handler = signal.getsignal(signal.SIGINT)
@@ -515,7 +520,7 @@ def concrete(fn, params, args):
             region = "C12-threadsafe-trigger-pipe-leak"
     desc = "%s(%s) initial(attrs#%d, flags %o, SIGINT %r, wake-up fd %d) body %r crash %r" % (
         params["kind"], ", ".join("%s=%r" % kv for kv in zip(("sigint_event/hide_cursor", "disable_start_stop/keep_last_line"), opts)),
-        init[0], FLAGS[init[1]], SIGINTS[init[2]], WAKEUPS[init[3]], body, crash)
+        init[0], FLAGS[init[1]], SIGINTS[init[2]], WAKEUPS[init[3]], body, crash) + (" [in a non-main thread]" if len(init) > 4 and init[4] else "")
     return {"ok": res is None, "observed": res, "real_os_replay": real, "expected": "everything the context changed is restored", "call": desc, "known_region": region}
 
 
